@@ -700,6 +700,14 @@ def _sub(node, env, hook):
             rep = ast.UnaryOp(op=_UN_OPS[fnm](), operand=new.args[0])
         if rep is not None:
             return ast.copy_location(rep, new) if hasattr(new, "lineno") else rep
+    if isinstance(new, ast.Call) and isinstance(new.func, ast.Name) and new.func.id in ("max", "min") and len(new.args) == 1 and not new.keywords \
+            and isinstance(new.args[0], (ast.Tuple, ast.List)) and new.args[0].elts and not any(isinstance(a, ast.Starred) for a in new.args[0].elts):
+        # max((a, b)) reached by substitution of a literal tuple: max(a, b); of one element: the element
+        el = new.args[0].elts
+        if len(el) == 1:
+            return el[0]
+        n2 = ast.Call(func=new.func, args=list(el), keywords=[])
+        new = ast.copy_location(n2, new) if hasattr(new, "lineno") else n2
     if isinstance(new, ast.Call):
         fn = new.func
         if isinstance(fn, ast.Lambda) and not new.keywords and len(fn.args.args) == len(new.args) \
